@@ -82,6 +82,25 @@ def Guard.checkOp (g : Guard) (o : Op) : Bool :=
   let (ns, es, as, inst, w) := writeTargets o
   !inst && w == g.warp && ns.all g.fp.nw.contains && es.all g.fp.ew.contains && as.all g.attWrite
 
+/-- `moved_edge_previous_source` (fix 7993b16): the source an existing edge of the guard's warp is
+    currently stored under, when an `UpsertEdge` moves it to another source. -/
+def movedPrevSrc (sw : Nat) (st : Store) : Op → Option Nat
+  | .upsertEdge w id src _ _ =>
+    if w = sw then
+      match SMap.find? id st.edges with
+      | some r => if r.src ≠ src then some r.src else none
+      | none => none
+    else none
+  | _ => none
+
+/-- `FootprintGuard::check_op_in(store, op)`: `check_op`, plus the previous source of a moved
+    edge must be a declared node write. -/
+def Guard.checkOpIn (g : Guard) (st : Store) (o : Op) : Bool :=
+  g.checkOp o &&
+    (match movedPrevSrc g.warp st o with
+     | some n => g.fp.nw.contains n
+     | none => true)
+
 /-- Guarded evaluation of the body against the pre-state store. `none` = read violation or panic
     (the Bool says which: `true` = program panic). Ops emitted before the stop are kept: the
     post-hoc write check runs on them even when the executor unwound. -/
@@ -114,7 +133,7 @@ def runBody (g : Guard) (st : Store) : List Instr → List Op → List Op × Opt
 /-- `execute_item_enforced`. -/
 def runItem (g : Guard) (st : Store) (p : Program) : Outcome :=
   let (ops, stop) := runBody g st p.body []
-  let writesOk := ops.all g.checkOp
+  let writesOk := ops.all (g.checkOpIn st)
   match stop, writesOk with
   | none, true => .ok ops
   | none, false => .violation
